@@ -2,6 +2,7 @@
 import common as C
 import statelib
 from framework import Unit
+import mkopthm
 
 IMPORTS = 'From Gen Require Import decoders.'
 SPEC_IMPORTS = 'From ArmV Require Import Proofs.Cube Spec.DecTables.'
@@ -145,6 +146,9 @@ OP_IMPORTS = 'From Gen Require Import enums bits_ops shift opsyn core conc.'
 OP_SPEC_IMPORTS = 'From ArmV Require Import Spec.Pseudocode.'
 
 
+PROPS_FILES = ['C06'] + [f'C06ops{k}' for k in range(8)]
+
+
 def units():
     thms = ['C06_top_level', 'C06_multiply', 'C06_load_store_word', 'C06_branch_block', 'C06_dp_immediate']
     return [Unit('arm_groups', thms, ['Proofs/Cube.v', 'Proofs/DecodeReify.v', 'Proofs/DecArm1.v'], [], cases, IMPORTS, SPEC_IMPORTS),
@@ -152,4 +156,5 @@ def units():
                                                       'uncond', 'cop', 'dpr', 'rsr', 'xls', 'dp_misc_routing')],
                  ['Proofs/Cube.v', 'Proofs/DecodeReify.v', 'Proofs/DecArm2.v'], [], a2_cases, IMPORTS,
                  SPEC_IMPORTS + '\nFrom ArmV Require Import Spec.DecTablesA2.\nFrom Gen Require Import decoders.'),
-            Unit('operands', [], [], [], operand_cases, OP_IMPORTS, OP_SPEC_IMPORTS)]
+            Unit('operands', ['C06_ops_' + c for c in mkopthm.classes(True)],
+                 ['Proofs/OpTac.v'] + [f'Proofs/OpsA{k}.v' for k in range(8)], [], operand_cases, OP_IMPORTS, OP_SPEC_IMPORTS)]
